@@ -199,6 +199,45 @@ def check_files(files, backend, nexp, label, viols, ids_expected):
     return spec, elem, nspec
 
 
+GRACKLE_ALIAS = {"electron": "De", "H": "HI", "H+": "HII", "He": "HeI", "He+": "HeII", "He++": "HeIII", "H-": "HM", "H2": "H2I", "H2+": "H2II", "D": "DI", "D+": "DII", "HD": "HDI"}
+ENZO_DEFINED = set(GRACKLE_ALIAS) | {"C", "C+", "O", "O+", "Si", "Si+", "Si++", "CH", "CH2", "CH3+", "C2", "CO", "HCO+", "OH", "H2O", "O2"}
+
+
+def enzo_tables(out, net, entries, order, label, viols):
+    """per-species tables of the Enzo patch: the abundance <-> field copy loops, the field lookup and the enum of
+    new field types must all list every species once, in slot order, paired with its own field"""
+    ident = {}
+    for n, kw, i in entries:
+        ident[n] = i
+    ids = [ident.get(sp.name) for sp in net.species]
+    if None in ids or len(ids) != len(order):
+        return  # the species list itself is judged above
+    var = [(GRACKLE_ALIAS[i] if i in GRACKLE_ALIAS else a) + "Num" for i, a in zip(ids, order)]
+    w = (out / "Grid_NaunetWrapper.C").read_text()
+    fwd = re.findall(r"y\[IDX_(\S+?)\]\s*=\s*max\(BaryonField\[(\S+?)\]\[igrid\]", w)
+    bwd = re.findall(r"BaryonField\[(\S+?)\]\[igrid\]\s*=\s*max\(y\[IDX_(\S+?)\]", w)
+    want = list(zip(order, var))
+    if fwd != want:
+        viols.append((f"C09:enzo-wrapper:load", f"{label}: Grid_NaunetWrapper.C loads {fwd}, slot order / field pairing prescribes {want}", None))
+    if [(b, a) for a, b in bwd] != want:
+        viols.append((f"C09:enzo-wrapper:store", f"{label}: Grid_NaunetWrapper.C stores {bwd}, expected {[(b, a) for a, b in want]}", None))
+    f = (out / "Grid_IdentifyNaunetSpeciesFields.C").read_text()
+    head = f[f.index("int grid::IdentifyNaunetSpeciesFields(") :]
+    params = re.findall(r"int\s*&\s*(\w+)", head[: head.index(")")])
+    if params != var:
+        viols.append((f"C09:enzo-identify:parameters", f"{label}: IdentifyNaunetSpeciesFields takes {params}, expected {var}", None))
+    finds = re.findall(r"(\S+)\s*=\s*FindField\((\S+?)Density\s*,", f)
+    wantf = [(v, "Electron" if i == "electron" else v[:-3]) for v, i in zip(var, ids)]
+    if finds != wantf:
+        viols.append((f"C09:enzo-identify:findfield", f"{label}: field lookups {finds}, expected {wantf}", None))
+    t = (out / "typedefs.h").read_text()
+    new = [(n, int(v)) for n, v in re.findall(r"^\s*(\S+)Density\s*=\s*(\d+),\s*$", t, re.M) if int(v) >= 104]
+    wantn = [a for i, a in zip(ids, order) if i not in ENZO_DEFINED]
+    m = re.search(r"FieldUndefined\s*=\s*(\d+)", t)
+    if [n for n, _ in new] != wantn or [v for _, v in new] != list(range(104, 104 + len(wantn))) or not m or int(m.group(1)) != 104 + len(wantn):
+        viols.append((f"C09:enzo-typedefs", f"{label}: new field types {new} FieldUndefined={m.group(1) if m else None}, expected {wantn} numbered from 104", None))
+
+
 def run_case(arg):
     idx, entries, tier = arg[:3]
     ucl = len(arg) > 3 and arg[3] == "ucl"
@@ -264,9 +303,10 @@ def run_case(arg):
             out = Path(tempfile.mkdtemp(dir=scratch()))
             try:
                 with quiet():
-                    EnzoPatch("cpu").render(net, templates=["naunet_enzo.h.j2"], path=out)
+                    EnzoPatch("cpu").render(net, templates=["naunet_enzo.h.j2", "Grid_NaunetWrapper.C.j2", "Grid_IdentifyNaunetSpeciesFields.C.j2", "typedefs.h.j2"], path=out)
                 txt = (out / "naunet_enzo.h").read_text()
-                nart += 1
+                nart += 4
+                enzo_tables(out, net, entries, order, label, viols)
                 adef = re.findall(r"^#define\s+(A_\S+)\s+(\S+)\s*$", txt, re.M)
                 body = txt[txt.index("A_Table") :]
                 rows = re.findall(r"\b(A_[^\s,]+)", body[body.index("{") : body.index("}")])
@@ -351,7 +391,7 @@ def run(ctx):
         "species identity of the reference: spellings e-/E are one species, '#H' and 'GH'(surface_prefix G) are one species, every other pool name is its own species",
         "upper-case convention (elements E,H,HE,C,O; replacement HE->He, E->e as in the bundled cloud example): HE/HE+/HE++/HEH+/#HE are helium species, E- is the electron; expected aliases follow the replaced names",
         "identifier legality: ^[A-Za-z_][A-Za-z0-9_]*$ and not a Python keyword",
-        "Enzo patch: count, order, distinctness and legality of the A_<alias> table and the ENZO_NSPECIES count (network U Grackle species by identity, minus the electron) are judged; grackle aliases intentionally differ from the macro aliases",
+        "Enzo patch (naunet_enzo.h, Grid_NaunetWrapper.C, Grid_IdentifyNaunetSpeciesFields.C, typedefs.h): every per-species table lists each species once in slot order paired with its own field (Grackle's aliases De, HI, HII ... for the 12 Grackle species), new field types = species Enzo does not define, numbered from 104; count, order, distinctness and legality of the A_<alias> table and the ENZO_NSPECIES count (network U Grackle species by identity, minus the electron) are judged; grackle aliases intentionally differ from the macro aliases",
     ]
     return {
         "evaluations": nart + ncli,
